@@ -13,10 +13,11 @@ import (
 )
 
 type Frame struct {
-	fn     *ssa.Function
-	regs   map[ssa.Value]Value
-	iters  map[*ssa.BasicBlock]int
-	defers []deferred
+	fn       *ssa.Function
+	regs     map[ssa.Value]Value
+	iters    map[*ssa.BasicBlock]int
+	defers   []deferred
+	havocked bool
 }
 type deferred struct {
 	fn   Value
@@ -88,8 +89,9 @@ type Exec struct {
 	pruned    int
 	feasCalls int
 	depth     int
-	havoc     map[string]int
+	havoc     map[string]string
 	havocUsed map[string]bool
+	havocSeen map[string]bool
 }
 
 type obsRec struct {
@@ -109,7 +111,7 @@ func NewExec(prog *ssa.Program) *Exec {
 }
 
 func (fr *Frame) clone() *Frame {
-	n := &Frame{fn: fr.fn, regs: make(map[ssa.Value]Value, len(fr.regs)+8), defers: fr.defers}
+	n := &Frame{fn: fr.fn, regs: make(map[ssa.Value]Value, len(fr.regs)+8), defers: fr.defers, havocked: fr.havocked}
 	for k, v := range fr.regs {
 		n.regs[k] = v
 	}
@@ -477,7 +479,7 @@ func (e *Exec) merge(a, b Outcome, n int, live map[ssa.Value]bool) (Outcome, boo
 	}
 	var nf *Frame
 	if a.fr != nil {
-		nf = &Frame{fn: a.fr.fn, regs: make(map[ssa.Value]Value, len(a.fr.regs)), defers: a.fr.defers}
+		nf = &Frame{fn: a.fr.fn, regs: make(map[ssa.Value]Value, len(a.fr.regs)), defers: a.fr.defers, havocked: a.fr.havocked || b.fr.havocked}
 		for k, va := range a.fr.regs {
 			if live != nil && !live[k] {
 				continue
@@ -670,20 +672,30 @@ func (e *Exec) enter(s *State, fr *Frame, b, prev *ssa.BasicBlock) bool {
 	}
 	for i, ph := range phis {
 		fr.regs[ph] = vals[i]
-		if k, ok := e.havoc[fr.fn.String()]; ok && isLoopHeader(b) && !isBackEdge(prev, b) {
-			// loop cut: the loop-carried scalar phis of this header start from a fresh value
-			if t, isT := vals[i].(*Term); isT && t.w > 0 && k >= 0 {
-				name := fmt.Sprintf("havoc.%s.%s", fr.fn.Name(), ph.Comment)
-				if ph.Comment == "" {
-					name = fmt.Sprintf("havoc.%s.%s", fr.fn.Name(), ph.Name())
-				}
-				hv := e.havocFilter(fr.fn, ph)
-				if hv {
-					v := Var(t.w, name)
-					e.addInput(v)
-					fr.regs[ph] = v
-					e.havocUsed[fr.fn.String()] = true
-				}
+	}
+	if vn, ok := e.havoc[fr.fn.String()]; ok && !fr.havocked && isLoopHeader(b) && !isBackEdge(prev, b) {
+		// loop cut: the named loop-carried scalar of the first loop of this call starts from a fresh value
+		for i, ph := range phis {
+			if ph.Comment != vn {
+				continue
+			}
+			t, isT := vals[i].(*Term)
+			if !isT || t.w == 0 {
+				continue
+			}
+			if !havocSideConditions(b, ph) {
+				e.havocUsed[fr.fn.String()] = false
+				break
+			}
+			v := Var(t.w, fmt.Sprintf("havoc.%s.%s", fr.fn.Name(), vn))
+			if !e.havocSeen[v.name] {
+				e.havocSeen[v.name] = true
+				e.addInput(v)
+			}
+			fr.regs[ph] = v
+			fr.havocked = true
+			if _, set := e.havocUsed[fr.fn.String()]; !set {
+				e.havocUsed[fr.fn.String()] = true
 			}
 		}
 	}
@@ -1736,7 +1748,63 @@ func (e *Exec) addInput(v *Term) {
 	e.inputs = append(e.inputs, v)
 }
 
-func (e *Exec) havocFilter(fn *ssa.Function, ph *ssa.Phi) bool { return true }
+// havocSideConditions checks that cutting the loop at header h on phi ph is a valid
+// induction: every other phi of the header is a plain counter (x = x + const), and the
+// natural loop of h contains no store, map update, call (other than len/cap) or defer.
+func havocSideConditions(h *ssa.BasicBlock, ph *ssa.Phi) bool {
+	body := map[*ssa.BasicBlock]bool{h: true}
+	for _, p := range h.Preds {
+		if !h.Dominates(p) {
+			continue
+		}
+		st := []*ssa.BasicBlock{p}
+		for len(st) > 0 {
+			x := st[len(st)-1]
+			st = st[:len(st)-1]
+			if body[x] {
+				continue
+			}
+			body[x] = true
+			st = append(st, x.Preds...)
+		}
+	}
+	for _, in := range h.Instrs {
+		other, ok := in.(*ssa.Phi)
+		if !ok {
+			break
+		}
+		if other == ph {
+			continue
+		}
+		counter := false
+		for i, ed := range other.Edges {
+			if !h.Dominates(h.Preds[i]) {
+				continue
+			}
+			if bo, ok := ed.(*ssa.BinOp); ok && bo.Op == token.ADD {
+				if _, isC := bo.Y.(*ssa.Const); isC && bo.X == other {
+					counter = true
+				}
+			}
+		}
+		if !counter {
+			return false
+		}
+	}
+	for b := range body {
+		for _, in := range b.Instrs {
+			switch x := in.(type) {
+			case *ssa.Store, *ssa.MapUpdate, *ssa.Defer, *ssa.Go, *ssa.Send, *ssa.Panic:
+				return false
+			case *ssa.Call:
+				if bi, ok := x.Common().Value.(*ssa.Builtin); !ok || (bi.Name() != "len" && bi.Name() != "cap") {
+					return false
+				}
+			}
+		}
+	}
+	return true
+}
 
 func sortedKeys(m map[string]bool) []string {
 	var ks []string
